@@ -5,6 +5,9 @@
 #include <boost/asio/ip/tcp.hpp>
 #include <ftp/detail/ascii_istream.hpp>
 #include <ftp/detail/ascii_ostream.hpp>
+#include <ftp/detail/control_connection.hpp>
+#include <ftp/detail/socket_base.hpp>
+#include <ftp/detail/net_context.hpp>
 #include "leaf_ext.hpp"
 #include "hexio.hpp"
 #include <cstring>
@@ -26,6 +29,7 @@ static boost::asio::ip::address ip_of(const std::vector<std::string> & f, size_t
     return boost::asio::ip::make_address(t);
 }
 
+static std::vector<size_t> ints_of(const std::string & s);
 static std::vector<size_t> ints_of(const std::string & s)
 {
     std::vector<size_t> v;
@@ -63,9 +67,100 @@ struct rec_sink : ftp::output_stream
     void flush() override { if (!events.empty()) events += ","; events += "F"; }
 };
 
+// ---- in-memory transport under control_connection: the real boost::asio::read_until, the real
+// match_eol and the real control_connection::recv run on top of it
+struct livelock_detected {};
+
+struct fake_stream
+{
+    std::string data; size_t pos = 0; std::vector<size_t> sched; size_t calls = 0;
+    bool end_is_error = false; size_t reads_after_end = 0;
+    std::string written;
+    template <typename MutableBufferSequence>
+    std::size_t read_some(const MutableBufferSequence & buffers, boost::system::error_code & ec)
+    {
+        size_t room = boost::asio::buffer_size(buffers);
+        if (pos >= data.size())
+        {
+            if (++reads_after_end > 1000) throw livelock_detected();
+            ec = end_is_error ? boost::system::error_code(boost::asio::error::connection_reset)
+                              : boost::system::error_code(boost::asio::error::eof);
+            return 0;
+        }
+        size_t k = room;
+        if (calls < sched.size()) k = std::min(k, std::max<size_t>(1, sched[calls]));
+        calls++;
+        k = std::min(k, data.size() - pos);
+        size_t n = boost::asio::buffer_copy(buffers, boost::asio::buffer(data.data() + pos, k));
+        pos += n;
+        ec = boost::system::error_code();
+        return n;
+    }
+};
+
+struct fake_socket : socket_base
+{
+    fake_stream st;
+    boost::asio::io_context ioc;
+    boost::asio::ip::tcp::socket dummy{ioc};
+    void connect(const boost::asio::ip::tcp::resolver::results_type &, boost::system::error_code & ec) override { ec = {}; }
+    void connect(const boost::asio::ip::tcp::endpoint &, boost::system::error_code & ec) override { ec = {}; }
+    bool is_connected() const override { return true; }
+    bool has_ssl_support() const override { return false; }
+    void ssl_handshake(boost::asio::ssl::stream_base::handshake_type, boost::system::error_code & ec) override { ec = {}; }
+    void ssl_shutdown(boost::system::error_code & ec) override { ec = {}; }
+    SSL_SESSION * get_ssl_session() override { return nullptr; }
+    std::size_t write(const char *buf, std::size_t size, boost::system::error_code & ec) override { st.written.append(buf, size); ec = {}; return size; }
+    std::size_t write(std::string_view buf, boost::system::error_code & ec) override { st.written.append(buf); ec = {}; return buf.size(); }
+    std::size_t read_some(char *buf, std::size_t max_size, boost::system::error_code & ec) override
+    { return st.read_some(boost::asio::buffer(buf, max_size), ec); }
+    std::size_t read_line(std::string & buf, std::size_t max_size, boost::system::error_code & ec) override
+    { return socket_base::read_line<fake_stream>(st, buf, max_size, ec); }
+    void shutdown(boost::asio::ip::tcp::socket::shutdown_type, boost::system::error_code & ec) override { ec = {}; }
+    void close(boost::system::error_code & ec) override { ec = {}; }
+    boost::asio::ip::tcp::endpoint local_endpoint(boost::system::error_code & ec) const override { ec = {}; return {}; }
+    boost::asio::ip::tcp::endpoint remote_endpoint(boost::system::error_code & ec) const override { ec = {}; return {}; }
+    boost::asio::ip::tcp::socket::executor_type get_executor() override { return dummy.get_executor(); }
+    boost::asio::ip::tcp::socket & get_socket() override { return dummy; }
+    boost::asio::ip::tcp::socket detach() override { return boost::asio::ip::tcp::socket(ioc); }
+};
+
+static std::string run_frame(const std::vector<std::string> & f)
+{
+    // frame <nrecv> <eof|err> <sched|-> <prebuffer hex> <stream hex>
+    size_t nrecv = std::stoul(f.at(1));
+    net_context ctx;
+    control_connection cc(ctx);
+    auto fs = std::make_unique<fake_socket>();
+    fake_socket *raw = fs.get();
+    raw->st.end_is_error = (f.at(2) == "err");
+    raw->st.sched = ints_of(f.at(3));
+    cc.buffer_ = unhex(f.at(4));
+    raw->st.data = unhex(f.at(5));
+    cc.socket_ = std::move(fs);
+    std::string out;
+    for (size_t i = 0; i < nrecv; i++)
+    {
+        if (!out.empty()) out += " ";
+        try
+        {
+            reply r = cc.recv();
+            out += "ok:" + std::to_string(r.get_code()) + ":" + hex(r.get_status_string());
+        }
+        catch (const ftp_exception &) { out += "exn"; break; }
+        catch (const livelock_detected &) { out += "livelock"; break; }
+        if (cc.buffer_.size() > 8192) { out += " BUFFER-OVER-CAP"; break; }
+    }
+    std::string left = cc.buffer_ + raw->st.data.substr(std::min(raw->st.pos, raw->st.data.size()));
+    if (out.size() >= 8 && out.compare(out.size() - 8, 8, "livelock") == 0) return out;
+    return out + " | left=" + hex(left);
+}
+
 std::string leaf_ext_run(const std::vector<std::string> & f)
 {
     const std::string & k = f.at(0);
+    if (k == "frame") return run_frame(f);
+    if (k == "wfcheck") return "ok";
     if (k == "aup")
     {
         size_t isz = std::stoul(f.at(1));
